@@ -3,6 +3,7 @@ import json
 import os
 import re
 import struct
+import sys
 
 import vlib
 from runner import PropBase
@@ -11,9 +12,12 @@ from vlib import Rng
 from props import c14 as c14mod
 from props import c15_schema
 
+sys.path.insert(0, os.path.join(os.path.dirname(os.path.dirname(os.path.abspath(__file__))), "translate"))
+import c15_schema as doc_schema      # noqa: E402  the translator's parser of json-schema.md (same tree the Coq DOC_SCHEMA is printed from)
+
 U32 = (1 << 32) - 1
 U64 = (1 << 64) - 1
-SCHEMA_MD = "/repo/minidump-processor/json-schema.md"
+SCHEMA_MD = os.path.join(vlib.REPO, "minidump-processor/json-schema.md")
 
 HOSTILE = [
     "plain", 'quo"te', "back\\slash", "ctl\x01\x1f\x7f", "tab\tnew\nline\r", "nonbmp\U0001F600\U0001D11E", "lossy\ue123\ue124end",
@@ -77,10 +81,62 @@ def addr_ok(v, width32):
     return bool(re.match(r"^0x[0-9a-f]{16}$", v))
 
 
+HEXSTR = re.compile(r"^0x[0-9a-f]{1,16}$")
+
+
+def doc_conforms(t, v, path="$"):
+    """Python twin of Gallina [conforms] over the tree translate/c15_schema.py parses out of json-schema.md; returns None | str.
+    (floats are accepted for <f32> here: the real document has `confidence`, the model's does not)"""
+    if v is None:
+        return None
+    k = t[0]
+    if k == "leaf":
+        n = t[1]
+        ok = {"string": isinstance(v, str), "bool": isinstance(v, bool), "hexstring": isinstance(v, str) and bool(HEXSTR.match(v)),
+              "u32": isinstance(v, int) and not isinstance(v, bool) and 0 <= v < (1 << 32),
+              "u64": isinstance(v, int) and not isinstance(v, bool) and 0 <= v < (1 << 64),
+              "f32": isinstance(v, (int, float)) and not isinstance(v, bool), "object": isinstance(v, dict)}[n]
+        return None if ok else "%s: expected <%s>, got %r" % (path, n, v)
+    if k == "enum":
+        if isinstance(v, str) and v in t[1]:
+            return None
+        if t[2] is not None and doc_conforms(t[2], v, path) is None:
+            return None
+        return "%s: %r is not one of the documented values %s" % (path, v, "|".join(t[1]))
+    if k == "arr":
+        if not isinstance(v, list):
+            return "%s: expected an array" % path
+        for i, x in enumerate(v):
+            e = doc_conforms(t[1], x, "%s[%d]" % (path, i))
+            if e:
+                return e
+        return None
+    if k == "map":
+        if not isinstance(v, dict):
+            return "%s: expected an object" % path
+        for kk, x in v.items():
+            e = doc_conforms(t[1], x, "%s.%s" % (path, kk))
+            if e:
+                return e
+        return None
+    if k == "obj":
+        if not isinstance(v, dict):
+            return "%s: expected an object" % path
+        d = dict(t[1])
+        for kk, x in v.items():
+            if kk not in d:
+                return "%s: member %r is not documented in json-schema.md" % (path, kk)
+            e = doc_conforms(d[kk], x, "%s.%s" % (path, kk))
+            if e:
+                return e
+        return None
+    return "%s: internal: schema node %r" % (path, k)
+
+
 class C15(PropBase):
     pid = "C15"
     coq_dirs = ["Base", "C08", "C19", "C15"]
-    translators = ["c15_enums.py", "bitflip_consts.py"]
+    translators = ["c15_enums.py", "bitflip_consts.py", "c15_schema.py"]
     bins = ["c15"]
     has_model_driver = False        # two-stage: the model renders from the facts the harness prints (see extra)
     impl_mem_gb = 6
@@ -149,6 +205,9 @@ class C15(PropBase):
                 mn.append(rng.choice(HOSTILE) + (".m%d" % i))
             else:
                 mn.append("/lib/m%02d.so" % i)
+        for i in range(1, len(mn)):
+            if rng.chance(1, 8):       # two modules with the same basename in different directories share symbol stats / cert info
+                mn[i] = "/other/dir%d/" % i + basename(mn[rng.below(i)])
         un = [rng.choice(HOSTILE) if rng.chance(1, 2) else "u%02d" % (i % 3) for i in range(len(c.unl))]
         syms = []
         for i in symmods:
@@ -173,10 +232,60 @@ class C15(PropBase):
             len(tn), " ".join(hx(s) for s in tn), len(mn), " ".join(hx(s) for s in mn), len(un), " ".join(hx(s) for s in un),
             len(syms), " ".join("%d %s" % (i, hx(t)) for i, t in syms))
         line += " " + tail
+        st = self.gen_state_overrides(rng, c, mn, un, dist)
+        if st:
+            line += " ST %d %s" % (len(st), " ".join(st))
         dist["with_symbols"] = dist.get("with_symbols", 0) + bool(syms)
         dist["width_%s" % ("32" if c.arch in c14mod.ARCH_W32 else "64" if c.arch in (9, 12, 0x8002, 0x8003, 0x8004) else "unknown")] = \
             dist.get("width_%s" % ("32" if c.arch in c14mod.ARCH_W32 else "64" if c.arch in (9, 12, 0x8002, 0x8003, 0x8004) else "unknown"), 0) + 1
         return " ".join(line.split())
+
+    def gen_state_overrides(self, rng, c, mn, un, dist):
+        """directives the harness applies to the ProcessState after process_minidump: members no dump stream of the generator
+        reaches (assertion, cert info, symbol statistics incl. extra debug info / url / corrupt, mac crash info, Limit::Error,
+        last_error_value, trusts prewalked / cfi_scan, another requesting thread, extra inlines)"""
+        if not rng.chance(3, 5):
+            return []
+        st = []
+        hs = lambda: hx(rng.choice(HOSTILE))
+        modnames = [basename(lossy(n)) for n in mn] + [lossy(n) for n in un] + ["nosuch.dll"]
+        if rng.chance(1, 3):
+            st.append("assert " + hs())
+        for _ in range(rng.choice([0, 0, 1, 2])):
+            st.append("cert %s %s" % (hx(rng.choice(modnames)), hs()))
+        for _ in range(rng.choice([0, 0, 1, 2])):
+            extra = rng.chance(1, 2)
+            st.append("stat %s %s %d %d %s %s" % (
+                hx(rng.choice(modnames)), rng.choice(["-", hs(), hx("https://symbols.example/x.sym?a=\"b\"")]), rng.below(2), rng.below(2),
+                (rng.choice([hx("C:\\dbg\\x.pdb"), hx("/usr/lib/debug/l\u00e9.so"), hs()]) if extra else "-"),
+                (rng.choice(["5A9832E5287241C1838ED98914E9B7FF1", "000000000000000000000000000000000", "FFFFFFFFFFFFFFFFFFFFFFFFFFFFFFFFffffffff", "-"]) if extra else "-")))
+        nt = len(c.threads)
+        if nt and rng.chance(1, 4):
+            st.append("req %s" % rng.choice(["-"] + [str(i) for i in range(nt)]))
+        for _ in range(rng.choice([0, 0, 1, 3])):
+            if nt:
+                st.append("trust %d %d %d" % (rng.below(nt), rng.below(4), rng.range(1, 6)))
+        if nt and rng.chance(1, 3):
+            st.append("lasterr %d %d" % (rng.below(nt), rng.choice([0, 5, 0xC0000005, 1450, U32, 0x80070057, 87])))
+        if rng.chance(1, 6):
+            n = rng.range(1, 2)
+            recs = []
+            for _ in range(n):
+                recs.append("%d %d %d %s %s %s %s %s" % (rng.choice([0, 1, U64, 1 << 32]), rng.choice([0, 2]), rng.choice([0, U64, 7]),
+                                                         hs(), hs(), rng.choice(["-", hs()]), hs(), rng.choice(["-", hs()])))
+            st.append("mac %d %s" % (n, " ".join(recs)))
+        for _ in range(rng.choice([0, 0, 0, 1, 3])):
+            lv = lambda: rng.choice(["e", "u", "0", str(U64), str(rng.below(1 << 40))])
+            st.append("limit %s %s %s %s" % (hx(rng.choice(["Max open files", "Max \u00e9", "A", "a", "Max cpu time", rng.choice(HOSTILE)])), lv(), lv(), hs()))
+        if rng.chance(1, 8):
+            st.append("pid %s" % rng.choice(["-", "0", str(U32), "4242"]))
+        if nt and rng.chance(1, 4):
+            st.append("inl %d %d %s %s %s" % (rng.below(nt), rng.below(3), hs(), rng.choice(["-", hs()]), rng.choice(["-", "0", str(U32), "17"])))
+        if rng.chance(1, 10):
+            st.append("nobootargs")
+        for d in st:
+            dist["st_" + d.split()[0]] = dist.get("st_" + d.split()[0], 0) + 1
+        return st
 
     def gen_instruction_tail(self, rng, c, dist):
         """amd64 crash with instruction bytes at the exception ip, registers, memory info; Linux extras"""
@@ -319,6 +428,11 @@ class C15(PropBase):
             return "compact and pretty output differ as JSON values"
         deferred = None
         e = c15_schema.check(doc)
+        # the same judgement through the tree translate/c15_schema.py parses out of json-schema.md on this very run (the tree
+        # DOC_SCHEMA of the Coq theorem is printed from): the hand transcription and the document must agree on every report
+        e2 = doc_conforms(self.doc_tree(), doc)
+        if (e is None) != (e2 is None):
+            return "schema: the hand transcription says %r, json-schema.md (translated) says %r" % (e, e2)
         if e and ".system_info.os:" in e:      # F-C15a must not hide anything else
             deferred = "schema: " + e
             d2 = dict(doc, system_info=dict(doc["system_info"], os="Linux"))
@@ -468,7 +582,69 @@ class C15(PropBase):
                 return "possible_bit_flips[%d].confidence %s is longer than the shortest round-tripping decimal %r" % (i, t, wide)
         if doc.get("pid") is not None and not isinstance(doc.get("pid"), int):
             return "pid not an integer"
+        e = self.oracle_new_members(doc, ext)
+        if e:
+            return e
         return deferred
+
+    def doc_tree(self):
+        t = self.__dict__.get("_doc_tree")
+        if t is None:
+            t = self._doc_tree = doc_schema.parse_schema(open(SCHEMA_MD).read())
+        return t
+
+    def st_directives(self, ext):
+        if " ST " not in " " + ext:
+            return []
+        toks = ext.split(" ST ", 1)[1].split()
+        ar = {"assert": 1, "cert": 2, "stat": 6, "req": 1, "trust": 3, "lasterr": 2, "limit": 4, "pid": 1, "inl": 5, "nobootargs": 0}
+        out, i = [], 1
+        while i < len(toks):
+            d = toks[i]
+            if d == "mac":
+                n = int(toks[i + 1])
+                out.append((d, toks[i + 2:i + 2 + 8 * n]))
+                i += 2 + 8 * n
+            else:
+                out.append((d, toks[i + 1:i + 1 + ar[d]]))
+                i += 1 + ar[d]
+        return out
+
+    def oracle_new_members(self, doc, ext):
+        """self-consistency of the members round 4 brought into the model, judged on the real output alone"""
+        dec = lambda h: "" if h == "-" else bytes.fromhex(h).decode("utf-8")
+        st = self.st_directives(ext)
+        certs = {}
+        for d, a in st:
+            if d == "cert":
+                certs[dec(a[0])] = dec(a[1])
+        if doc.get("modules_contains_cert_info") != bool(certs):
+            return "modules_contains_cert_info = %r but the state has %d certificate entries" % (doc.get("modules_contains_cert_info"), len(certs))
+        for i, m in enumerate(doc.get("modules") or []):
+            if m.get("cert_subject") != certs.get(m.get("filename")):
+                return "modules[%d].cert_subject = %r, cert_info[%r] = %r" % (i, m.get("cert_subject"), m.get("filename"), certs.get(m.get("filename")))
+            if m.get("missing_symbols") and m.get("loaded_symbols"):
+                return "modules[%d]: missing_symbols and loaded_symbols both true" % i
+        for i, m in enumerate(doc.get("unloaded_modules") or []):
+            if m.get("cert_subject") != certs.get(m.get("filename")):
+                return "unloaded_modules[%d].cert_subject = %r, cert_info[%r] = %r" % (i, m.get("cert_subject"), m.get("filename"), certs.get(m.get("filename")))
+        same = {}
+        for m in doc.get("modules") or []:
+            key = tuple(m.get(k) for k in ("loaded_symbols", "missing_symbols", "corrupt_symbols", "symbol_url", "cert_subject"))
+            if same.setdefault(m.get("filename"), key) != key:
+                return "two modules named %r carry different symbol statistics / certificate" % m.get("filename")
+        mc = doc.get("mac_crash_info")
+        if mc is not None and mc.get("num_records") != len(mc.get("records") or []):
+            return "mac_crash_info.num_records = %r but %d records" % (mc.get("num_records"), len(mc.get("records") or []))
+        pl = doc.get("proc_limits")
+        if pl is not None:
+            names = [x.get("name") for x in pl.get("limits") or []]
+            if names != sorted(names, key=lambda s: s.encode("utf-8")) or len(set(names)) != len(names):
+                return "proc_limits.limits is not sorted by name without repetition: %r" % names[:6]
+        want_assert = [dec(a[0]) for d, a in st if d == "assert"]
+        if (doc.get("crash_info") or {}).get("assertion") != (want_assert[-1] if want_assert else None):
+            return "crash_info.assertion = %r, the state's assertion is %r" % ((doc.get("crash_info") or {}).get("assertion"), want_assert[-1:] or None)
+        return None
 
     # how many reports had each (optional) member present and non-null / non-empty — makes generator gaps visible
     def count_keys(self, v, path):
@@ -515,6 +691,7 @@ class C15(PropBase):
                         "what": "json-schema.md does not document names the implementation emits: %s" % ", ".join(missing)})
         exe = vlib.ocaml_build(self.pid)
         compared = mism = 0
+        wfs = {}
         for prof, answers in ctx["impl"].items():
             lines, idx = [], []
             for i, a in enumerate(answers):
@@ -531,7 +708,9 @@ class C15(PropBase):
             for i, line, r in zip(idx, lines, res):
                 compared += 1
                 view = line.split("\t", 1)[1]
-                mview, ok, mconf = ((r or "").split("\t") + ["", "", ""])[:3]
+                mview, ok, mconf, wf, rconf = ((r or "").split("\t") + ["", "", "", "", ""])[:5]
+                wfs[wf] = wfs.get(wf, 0) + 1
+                os_unknown = " SYS 8 " in line.split("\t", 1)[0]
                 what = None
                 hconf = self.split(answers[i])[4]
                 if mconf != hconf:
@@ -541,6 +720,12 @@ class C15(PropBase):
                     what = "correspondence: the model's rendering of the modelled fields differs from print_json's"
                 elif ok != "1":
                     what = "correspondence: the model's parser does not accept / reproduce the real view"
+                elif wf != "1" and not os_unknown:
+                    what = ("the hypotheses [wf_state] of theorem c15_schema_conformance do not hold on this real process state "
+                            "(only Os::Unknown, finding F-C15a, is a recorded exception)")
+                elif wf == "1" and rconf != "1":
+                    what = ("schema: the Gallina checker [conforms DOC_SCHEMA] (schema regenerated from json-schema.md) rejects the real "
+                            "print_json document although the state satisfies wf_state")
                 if what:
                     mism += 1
                     if len(out) < 6:
@@ -552,6 +737,8 @@ class C15(PropBase):
         ctx["info"]["member_coverage_reports_with_member_present"] = dict(sorted(self.__dict__.get("_cov", {}).items()))
         ctx["info"]["traces_validated_against_impl"] = compared
         ctx["info"]["correspondence_mismatches"] = mism
+        ctx["info"]["states_satisfying_wf_state"] = wfs.get("1", 0)
+        ctx["info"]["states_outside_wf_state_os_unknown"] = wfs.get("0", 0)
         return out
 
 
